@@ -356,10 +356,30 @@ func (s *Sched) loop() {
 // ---- primitives ----
 
 // Go starts a managed goroutine (plain `go` without an active scheduler).
+// freeWG tracks goroutines started through Go/GoNamed while no scheduler is active (reference runs and
+// completion phases), so that the harness can wait for them (WaitFree) before the next controlled execution:
+// a goroutine that outlives its phase would otherwise run into the next execution's scheduler.
+var freeWG rsync.WaitGroup
+
+func goFree(f func()) {
+	freeWG.Add(1)
+	go func() {
+		defer freeWG.Done()
+		f()
+	}()
+}
+
+// WaitFree waits until every goroutine started outside a controlled execution has finished (no-op inside one).
+func WaitFree() {
+	if current() == nil {
+		freeWG.Wait()
+	}
+}
+
 func Go(f func()) {
 	s := current()
 	if s == nil {
-		go f()
+		goFree(f)
 		return
 	}
 	s.spawn(fmt.Sprintf("g%d", len(s.gors)), f)
@@ -369,7 +389,7 @@ func Go(f func()) {
 func GoNamed(name string, f func()) {
 	s := current()
 	if s == nil {
-		go f()
+		goFree(f)
 		return
 	}
 	s.spawn(name, f)
